@@ -1662,6 +1662,11 @@ tunnel_bind(int bind_fd, struct dnsfd *dns_fds)
 	if (r <= 0)
 		return 0;
 
+	/* Too short to hold a DNS header: no id to route it by
+	   (dns_get_id() would report id 0, which a real query may have) */
+	if (r < (int) sizeof(HEADER))
+		return 0;
+
 	id = dns_get_id(packet, r);
 
 	if (debug >= 2) {
